@@ -112,3 +112,22 @@ Ltac unfold_model :=
        m2_lerp m3_lerp m4_lerp
        m2x m2y m3x m3y m3z m4x m4y m4z m4w
        app nth map fold_right fold_left repeat seq Nat.odd Nat.even Nat.add negb] in *.
+
+From CG Require Import Model.Angle Model.Quaternion.
+
+Ltac destruct_quats :=
+  repeat match goal with
+  | q : Quat _ |- _ => destruct q
+  end; destruct_mats.
+
+Ltac quat_eq :=
+  repeat match goal with
+  | |- mkQuat _ _ = mkQuat _ _ => f_equal
+  | _ => progress mat_eq
+  end.
+
+Ltac unfold_quat :=
+  cbv [quat_from_sv quat_new quat_list quat_sxyz quat_zero quat_one quat_conjugate quat_neg
+       quat_add quat_sub quat_mul_s quat_div_s quat_rem_s quat_smul quat_sdiv quat_mul quat_mul_v
+       quat_dot quat_magnitude2 quat_distance2 quat_lerp quat_rotate_vector quat_rotate_point
+       quat_invert m3_of_quat m4_of_quat qv qs nat_c] in *.
